@@ -7,6 +7,8 @@ import (
 	"time"
 	"unicode/utf8"
 
+	"mcrt"
+
 	"github.com/acarl005/stripansi"
 	"github.com/mattn/go-runewidth"
 	"github.com/vbauerster/mpb/v8"
@@ -470,7 +472,27 @@ func init() {
 		Property: "C07",
 		Rule: "(a) BarFiller.Fill driven directly: styles = {filler} x {padding} x {tip frame lists} and {lbound} x {rbound} and {refiller} over the strings {\"=\", \"\", 2-column CJK, base+combining mark, lone combining mark (0 columns), two ASCII runes} with tip lists {[>], [wide], [\"\", >], [=>]}, x reverse x tip-on-complete, available widths {0..5,8,13,24,80} (thorough 0..24,79,80,81,200), requested widths {0,1,w-1,w,w+1}, eight (total,current) pairs, refill {0, current/2}; spinner frames x 3 positions likewise. " +
 			"(b) one frame of a one-bar container of width w (manual refresh, non-terminal output) with 0..1 decorators per side from 26 Name/Meta decorators (texts empty/ASCII/CJK/32 columns, W in {0,3,40}, flags, ANSI colour through Meta), trim on/off, BarWidth default and w-1, three fillers. (c) every built-in decorator x WC x wrapper x statistics: reported width vs display width. " +
-			"Oracle: termination (loop fuel: a loop that runs 50000 iterations without a visible operation is reported as FUEL), no panic, valid UTF-8, body width == min(requested, available) when anything is drawn, row display width (SGR stripped) <= terminal width, reported width == display width. Every terminating case is re-executed on the unmodified package (digest comparison).",
-		Items: func(tier string) []Item { return seqItems("C07", tier) },
+			"Oracle: termination (loop fuel: a loop that runs 50000 iterations without a visible operation is reported as FUEL), no panic, valid UTF-8, body width == min(requested, available) when anything is drawn, row display width (SGR stripped) <= terminal width, reported width == display width; (d) two containers on pseudo terminals (4 bars on 3 rows whose bottom bars leave; decorators wider than the terminal): no line wraps. Every terminating case is re-executed on the unmodified package (digest comparison).",
+		Items: func(tier string) []Item {
+			items := seqItems("C07", tier)
+			// (d) whole containers on a pseudo terminal with more rows than the terminal shows and with decorators wider
+			// than the terminal: no line written to the terminal may wrap, in any frame of any schedule explored
+			for _, sp := range c04Programs(tier) {
+				if !strings.HasPrefix(sp.Name, "c04-tall-drop") && !strings.HasPrefix(sp.Name, "c04-narrow-decor") {
+					continue
+				}
+				bound := 0
+				if tier == "thorough" {
+					bound = 1
+				}
+				items = append(items, specItems("C07", sp, bound, []int{mcrt.StratFIFO}, c04Tags(sp), func(sp *Spec, x *X, res *mcrt.Result) (string, string) {
+					if k, d := c04Oracle(sp, x, res); k == "row-wider-than-terminal" {
+						return k, d
+					}
+					return "", ""
+				})...)
+			}
+			return items
+		},
 	})
 }
